@@ -74,12 +74,12 @@ func c19Meta(m *pdf.MetaInfo) string {
 	var b strings.Builder
 	fmt.Fprintf(&b, "version=%v id=%x perm=%d", m.Version, m.ID, m.Permissions)
 	if m.Catalog != nil {
-		fmt.Fprintf(&b, " pages=%v", m.Catalog.Pages)
+		fmt.Fprintf(&b, " pages=%v layout=%q mode=%q lang=%v needs-rendering=%v", m.Catalog.Pages, m.Catalog.PageLayout, m.Catalog.PageMode, m.Catalog.Lang, m.Catalog.NeedsRendering)
 	} else {
 		b.WriteString(" catalog=nil")
 	}
 	if m.Info != nil {
-		fmt.Fprintf(&b, " info={%q %q %v}", m.Info.Title, m.Info.Author, m.Info.Custom)
+		fmt.Fprintf(&b, " info={%q %q %v trapped=%v}", m.Info.Title, m.Info.Author, m.Info.Custom, m.Info.Trapped)
 	} else {
 		b.WriteString(" info=nil")
 	}
@@ -363,6 +363,93 @@ func TestVerifC19(t *testing.T) {
 	}
 	r.Phase("read-faults", r.N(96, 1200), func(c *kit.Case) { readFaults(c, false) })
 	r.Phase("read-faults-updated-file", r.N(48, 600), func(c *kit.Case) { readFaults(c, true) })
+	// a file (written by the independent serialiser) whose catalog and Info
+	// dictionary hold their simple entries as indirect objects
+	r.Phase("read-faults-indirect-entries", r.N(24, 300), func(c *kit.Case) {
+		rng := c.Rng
+		h := &kit.XHistory{Version: kit.Pick(rng, []string{"1.4", "1.7", "2.0"})}
+		// (a classic table: the scenario also rebuilds the file with SequentialScan,
+		// which does not look into object streams)
+		rev := kit.XRev{Actions: map[uint32]kit.XAction{}, Kind: "table"}
+		cat := kit.XDict{"Type": kit.XName("Catalog"), "Pages": kit.XRef{Num: 2}}
+		info := kit.XDict{"Title": kit.XString("the title")}
+		next := uint32(3)
+		ind := func(v any) any {
+			if rng.Chance(3, 4) {
+				rev.Actions[next] = kit.XAction{Value: v}
+				next++
+				return kit.XRef{Num: next - 1}
+			}
+			return v
+		}
+		cat["PageLayout"] = ind(kit.XName("TwoColumnLeft"))
+		cat["PageMode"] = ind(kit.XName("UseOutlines"))
+		cat["Lang"] = ind(kit.XString("en"))
+		if h.Version >= "1.7" {
+			cat["NeedsRendering"] = ind(true)
+		}
+		info["Trapped"] = ind(kit.XName("True"))
+		info["VerifKey"] = ind(kit.XString("custom value"))
+		info["Author"] = ind(kit.XString("A. U. Thor"))
+		rev.Actions[1] = kit.XAction{Value: cat}
+		rev.Actions[2] = kit.XAction{Value: kit.XDict{"Type": kit.XName("Pages"), "Kids": kit.XArray{}, "Count": int64(0)}}
+		rev.Actions[next] = kit.XAction{Value: info}
+		rev.Extra = kit.XDict{"Info": kit.XRef{Num: next}}
+		h.Revs = []kit.XRev{rev}
+		data, _ := kit.RenderHistory(rng, h, true, nil)
+		d := &gen.Doc{Data: data}
+		var refs []pdf.Reference
+		for n := uint32(1); n <= next; n++ {
+			refs = append(refs, pdf.NewReference(n, 0))
+		}
+		mi := c.Index % 3
+		mode := modes[mi]
+		base := &c19Reader{data: d.Data}
+		r0 := c19Scenario(d, base, mode, refs)
+		n := base.calls
+		want := map[string]string{}
+		for _, s := range r0 {
+			if s.err != nil {
+				c.Violationf("fault-free-error/"+c19Site(s.label), "hand-written file with indirect catalog entries: without any fault, %s fails: %v", s.label, s.err)
+				return
+			}
+			want[s.label] = s.val
+		}
+		for k := 1; k <= n; k++ {
+			for variant := 0; variant < 3; variant++ {
+				src := &c19Reader{data: d.Data, k: k, sticky: variant == 0, partial: variant == 2}
+				vname := []string{"from-k-on", "only-k", "only-k-short-read"}[variant]
+				got := c19Scenario(d, src, mode, refs)
+				c.R.Count("fault_runs", 1)
+				for _, s := range got {
+					c.R.Count("api_results_classified", 1)
+					site := c19Site(s.label)
+					ctx := fmt.Sprintf("hand-written %s file (%s section), catalog %s, Info %s\nmode=%s; ReadAt call %d of %d fails (%s); %s", h.Version, rev.Kind,
+						kit.XCanon(cat), kit.XCanon(info), modeNames[mi], k, n, vname, s.label)
+					if s.err != nil {
+						switch {
+						case !errors.Is(s.err, c19Injected):
+							c.Violationf("read/"+site+"/other-error/"+modeNames[mi], "%s\nreturns an error that does not carry the source's error: %v", ctx, s.err)
+						case pdf.IsMalformed(s.err):
+							c.Violationf("read/"+site+"/blamed-on-file/"+modeNames[mi], "%s\nthe source's error is classified as a malformed file: %v", ctx, s.err)
+						default:
+							c.R.Count("io_errors_surfaced", 1)
+						}
+						continue
+					}
+					if w, known := want[s.label]; known && s.val != w {
+						c.Violationf("read/"+site+"/different-data/"+modeNames[mi]+"/indirect-catalog-or-info-entry", "%s\nreturns different data without an error:\n with fault:    %s\n without fault: %s", ctx, kit.Trunc(s.val, 500), kit.Trunc(w, 500))
+					} else if known {
+						c.R.Count("results_unchanged", 1)
+					}
+				}
+			}
+		}
+		c.R.Count("documents_with_indirect_entries", 1)
+		c.R.Count("readat_indices_enumerated", int64(n))
+		c.Distinct(fmt.Sprintf("ind|%s|%s|%d|%d", h.Version, rev.Kind, len(data), mi))
+	})
+
 	fax = true
 	r.Phase("read-faults-fax-streams", r.N(48, 600), func(c *kit.Case) { readFaults(c, false) })
 	fax = false
